@@ -49,11 +49,14 @@ func CreateODS(
 	roots *share.AxisRoots,
 	eds *rsmt2d.ExtendedDataSquare,
 ) error {
+	verifMark("ods.create", path, 0)
 	mod := os.O_RDWR | os.O_CREATE | os.O_EXCL // ensure we fail if already exist
 	f, err := os.OpenFile(path, mod, filePermissions)
 	if err != nil {
+		verifMark("ods.create.err", path, 0)
 		return fmt.Errorf("creating ODS file: %w", err)
 	}
+	verifMark("ods.created", path, 0)
 
 	shareSize := len(eds.GetCell(0, 0))
 	hdr := &headerV0{
@@ -67,6 +70,7 @@ func CreateODS(
 	if errClose := f.Close(); errClose != nil {
 		err = errors.Join(err, fmt.Errorf("closing created ODS file: %w", errClose))
 	}
+	verifMark("ods.closed", path, 0)
 
 	return err
 }
@@ -79,6 +83,7 @@ func writeODSFile(f *os.File, axisRoots *share.AxisRoots, eds *rsmt2d.ExtendedDa
 	if err := writeHeader(f, hdr); err != nil {
 		return fmt.Errorf("writing header: %w", err)
 	}
+	verifMark("ods.hdr", f.Name(), 0)
 
 	if err := writeAxisRoots(buf, axisRoots); err != nil {
 		return fmt.Errorf("writing axis roots: %w", err)
@@ -91,6 +96,7 @@ func writeODSFile(f *os.File, axisRoots *share.AxisRoots, eds *rsmt2d.ExtendedDa
 	if err := buf.Flush(); err != nil {
 		return fmt.Errorf("flushing ODS file: %w", err)
 	}
+	verifMark("ods.flushed", f.Name(), 0)
 
 	return nil
 }
@@ -114,6 +120,7 @@ func writeODS(w io.Writer, eds *rsmt2d.ExtendedDataSquare) error {
 			if err != nil {
 				return fmt.Errorf("writing share: %w", err)
 			}
+			verifMark("ods.share", "", int(i*(eds.Width()/2)+j))
 		}
 	}
 	return nil
@@ -176,6 +183,7 @@ func OpenODS(path string) (*ODS, error) {
 		return nil, err
 	}
 
+	verifMark("ods.open", path, 0)
 	return &ODS{
 		hdr: h,
 		fl:  f,
@@ -222,6 +230,7 @@ func (o *ODS) AxisRoots(context.Context) (*share.AxisRoots, error) {
 
 // Close closes the file.
 func (o *ODS) Close() error {
+	verifMark("ods.close", o.fl.Name(), 0)
 	return o.fl.Close()
 }
 
